@@ -139,6 +139,10 @@ TCheck ==
 TRollback ==
   /\ IsEv("Rollback") /\ Rollback
   /\ pinfo.has
+  \* C07/C03: the iterate put back is the one saved at SavePrev - scalars bit for bit, vectors by digest
+  /\ (P("C07") \/ P("C03")) =>
+       /\ FSame(Ev.tau, pinfo.tau) /\ FSame(Ev.kappa, pinfo.kappa)
+       /\ (Ev.digest # "" /\ pinfo.digest # "") => Ev.digest = pinfo.digest
   /\ info' = [info EXCEPT !.cost_p = pinfo.cost_p, !.cost_d = pinfo.cost_d,
                           !.res_p = pinfo.res_p, !.res_d = pinfo.res_d,
                           !.gap_abs = pinfo.gap_abs, !.gap_rel = pinfo.gap_rel]
@@ -191,7 +195,8 @@ TSavePrev ==
   /\ IsEv("SavePrev") /\ SavePrev
   /\ pinfo' = [has |-> TRUE, cost_p |-> info.cost_p, cost_d |-> info.cost_d,
                res_p |-> info.res_p, res_d |-> info.res_d,
-               gap_abs |-> info.gap_abs, gap_rel |-> info.gap_rel]
+               gap_abs |-> info.gap_abs, gap_rel |-> info.gap_rel,
+               tau |-> info.tau, kappa |-> info.kappa, digest |-> info.digest]
   /\ UNCHANGED <<c, info, rowsOk, nruns>>
 
 \* C07: every accepted step has length in (0, 1]
